@@ -384,6 +384,55 @@ impl Monitor for C16m {
         let fail = |acc: &mut Acc, sig: &str, detail: String| {
             acc.violation(format!("c16:{sig}:{name}"), detail, json!({"instruction": ix_brief(&obs.ix), "epoch": obs.pre.clock.epoch}));
         };
+        // ---------------- two-hop swaps over fee-bearing mints ----------------
+        if let Some(t) = crate::monitors::twohop::parse_two_hop(&obs.ix) {
+            if !t.v2 || t.acct_in == t.acct_out {
+                return;
+            }
+            let (Some(p1), Some(p2)) = (obs.pre.data(&t.p1).and_then(codec::Pool::decode), obs.pre.data(&t.p2).and_then(codec::Pool::decode)) else { return };
+            let m_in = if t.d1 { p1.token_mint_a } else { p1.token_mint_b };
+            let m_out = if t.d2 { p2.token_mint_b } else { p2.token_mint_a };
+            let paid = bal(&obs.pre, &t.acct_in) as u128 - bal(&w.bank, &t.acct_in) as u128;
+            let got = bal(&w.bank, &t.acct_out) as u128 - bal(&obs.pre, &t.acct_out) as u128;
+            let vin = bal(&w.bank, &t.vault_one_in) as u128 - bal(&obs.pre, &t.vault_one_in) as u128;
+            let vout = bal(&obs.pre, &t.vault_two_out) as u128 - bal(&w.bank, &t.vault_two_out) as u128;
+            let (fin, fout) = (fee_of(&obs.pre, &m_in, paid as u64) as u128, fee_of(&obs.pre, &m_out, vout as u64) as u128);
+            if fin == 0 && fout == 0 {
+                return;
+            }
+            acc.count("fee_pool_two_hops");
+            if paid - vin != fin || vout - got != fout {
+                fail(acc, "two_hop_withheld_amounts", format!("input: paid {paid} vault got {vin}; output: vault paid {vout} trader got {got}; token-program fees would be {fin} and {fout}"));
+            }
+            if t.exact_in && paid > t.amount as u128 {
+                fail(acc, "paid_more_than_specified", format!("paid {paid} > amount {}", t.amount));
+            }
+            if !t.exact_in && paid > t.threshold as u128 {
+                fail(acc, "paid_more_than_maximum", format!("paid {paid} > maximum {}", t.threshold));
+            }
+            if t.exact_in && got < t.threshold as u128 {
+                fail(acc, "received_less_than_minimum", format!("received {got} < minimum {}", t.threshold));
+            }
+            // the outer threshold applies to what the trader actually receives (exact-in) / pays (exact-out)
+            if w.r.gen_range(0..2) == 0 {
+                use crate::monitors::swapmon::with_threshold;
+                let x = if t.exact_in { got as u64 } else { paid as u64 };
+                let bad = if t.exact_in { x.checked_add(1) } else { x.checked_sub(1) };
+                acc.count("two_hop_threshold_probes");
+                let (o, _) = w.simulate(&obs.pre, &with_threshold(&obs.ix, x));
+                if !o.ok() {
+                    fail(acc, "threshold_rejected_wrongly", format!("threshold {x} equal to what the trader {} was rejected: {:?}", if t.exact_in { "receives" } else { "pays" }, o.err));
+                }
+                if let Some(b) = bad {
+                    let (o, _) = w.simulate(&obs.pre, &with_threshold(&obs.ix, b));
+                    if o.ok() {
+                        fail(acc, "threshold_not_enforced", format!("trader {} {x} (vault side {}) but threshold {b} was accepted", if t.exact_in { "receives" } else { "pays" }, if t.exact_in { vout } else { vin }));
+                    }
+                }
+            }
+            acc.situation(format!("{name}:{}:{}:{}:infee{}:outfee{}", t.exact_in, t.d1, t.d2, (fin > 0) as u8, (fout > 0) as u8));
+            return;
+        }
         // ---------------- swaps ----------------
         if let Some(c) = parse_swap(&obs.ix) {
             let Some(pool) = obs.pre.data(&c.pool).and_then(codec::Pool::decode) else { return };
@@ -569,15 +618,15 @@ impl Monitor for C16m {
 
 pub fn run(tier: Tier, seed: u64) -> i32 {
     let mut rep = Report::new("C16", tier, seed);
-    rep.rule = "function level: Anchor calculate_transfer_fee_{excluded,included}_amount (InterfaceAccount<Mint> over a real Token-2022 mint buffer with TransferFeeConfig and neighbouring extensions) and the Pinocchio copies (AccountInfo over a loader-format buffer, own TLV parser), all fee configs (0..=10000 bp, max fee 0..u64::MAX, older/newer epoch around the switch) x hostile amounts: excluded.amount + fee == amount, fee == what spl-token-2022's own TransferFee::calculate_fee withholds for the epoch fee chosen by get_epoch_fee, included(y) delivers >= y and included(y)-1 does not, reported fee fields, round trip, Anchor == Pinocchio. instruction level (Token-2022 pools with fees on A, B or both; real Token-2022 processor): swaps - vault receives >= curve input (hook trace), vault pays exactly the curve output, trader's request is minimal, within amount/maximum, withheld amounts equal the token program's, Traded event equals the amounts moved, and for a third of them the other-amount threshold is probed on clones (equal to what the trader receives/pays: accepted; one unit stricter: refused); increase/decrease/by-amounts - vault receives >= exact deposit, pays exactly the exact withdrawal, maxima/minima apply to what the owner pays/receives (probed), liquidity events equal the amounts moved. distinct = (fee class, max class, amount magnitude, epoch side) and (instruction, fee on in/out, partial)".into();
-    rep.assumptions = vec!["spl-token-2022 8.0.1's TransferFee::calculate_fee / get_epoch_fee are the ground truth for what the token program withholds".into(), "reposition and two-hop on fee mints are covered through C17 / C12 / C18, not here".into()];
+    rep.rule = "function level: Anchor calculate_transfer_fee_{excluded,included}_amount (InterfaceAccount<Mint> over a real Token-2022 mint buffer with TransferFeeConfig and neighbouring extensions) and the Pinocchio copies (AccountInfo over a loader-format buffer, own TLV parser), all fee configs (0..=10000 bp, max fee 0..u64::MAX, older/newer epoch around the switch) x hostile amounts: excluded.amount + fee == amount, fee == what spl-token-2022's own TransferFee::calculate_fee withholds for the epoch fee chosen by get_epoch_fee, included(y) delivers >= y and included(y)-1 does not, reported fee fields, round trip, Anchor == Pinocchio. instruction level (Token-2022 pools with fees on A, B or both; real Token-2022 processor): swaps - vault receives >= curve input (hook trace), vault pays exactly the curve output, trader's request is minimal, within amount/maximum, withheld amounts equal the token program's, Traded event equals the amounts moved, and for a third of them the other-amount threshold is probed on clones (equal to what the trader receives/pays: accepted; one unit stricter: refused); two_hop_swap_v2 over fee-bearing input / output mints - withheld amounts equal the token program's, within amount / maximum / minimum, outer threshold probed against what the trader actually receives / pays; increase/decrease/by-amounts - vault receives >= exact deposit, pays exactly the exact withdrawal, maxima/minima apply to what the owner pays/receives (probed), liquidity events equal the amounts moved. distinct = (fee class, max class, amount magnitude, epoch side) and (instruction, fee on in/out, partial)".into();
+    rep.assumptions = vec!["spl-token-2022 8.0.1's TransferFee::calculate_fee / get_epoch_fee are the ground truth for what the token program withholds".into(), "reposition on fee mints is covered through C12 / C18 (state) and C08 (plain pools), not here".into()];
     let n = tier.pick(6_000_000, 150_000_000);
     let mut acc = function_level(seed, n);
     let per_shard = tier.pick(56, 1400);
     let acc2 = run_histories(
         seed ^ 0x16,
         per_shard,
-        move |_r| HistCfg { ops: 130, spl_only: false, allow_transfer_fee: true, w_swap: 45, w_liq: 38, w_fees: 4, w_lifecycle: 3, w_clock: 8, w_setters: 2, ..Default::default() },
+        move |_r| HistCfg { ops: 130, spl_only: false, allow_transfer_fee: true, w_swap: 40, w_liq: 36, w_fees: 4, w_lifecycle: 3, w_clock: 8, w_setters: 2, w_two_hop: 9, ..Default::default() },
         || vec![Box::new(C16m) as Box<dyn Monitor>],
     );
     acc.merge(acc2);
@@ -591,5 +640,7 @@ pub fn run(tier: Tier, seed: u64) -> i32 {
     rep.floor("fee_pool_liquidity_ix", 1500);
     rep.floor("minimum_probes", 50);
     rep.floor("swap_threshold_probes", 200);
+    rep.floor("fee_pool_two_hops", 100);
+    rep.floor("two_hop_threshold_probes", 40);
     rep.finish()
 }
